@@ -128,7 +128,7 @@ def load_findings():
 
 def b2s(v):
     """byte-array JSON value -> readable python repr (for replay files / samples)."""
-    if isinstance(v, list) and all(isinstance(x, int) for x in v):
+    if isinstance(v, list) and v and all(isinstance(x, int) and 0 <= x < 256 for x in v):
         try:
             return bytes(v).decode("utf-8")
         except Exception:
